@@ -74,8 +74,7 @@ func init() {
 	})
 }
 
-func runC15(c *CaseCtx) CaseResult {
-	var res CaseResult
+func runC15(c *CaseCtx) (res CaseResult) {
 	r := caseRand(c.Seed, "C15", c.Idx)
 	det := map[string]interface{}{}
 	defer func() {
